@@ -8,19 +8,23 @@ HARNESS = os.path.join(common.VERIF, 'harness')
 
 
 def build(flex, src, work, name, rs, seed, extra_opts=(), sanitize='address,undefined', topt=('-Cem',), backend='r'):
-    lex = rs.to_lex(random.Random(seed), action=lambda i: 'return %d;' % i, epilogue='#include "fvmulti.c"\n',
-                    extra_options=(['reentrant'] if backend == 'r' else ['emit="c99"']) + ['noyywrap'] + list(extra_opts))
+    be_opts = {'r': ['reentrant'], 'c99': ['emit="c99"'], 'cxx': ['c++']}[backend]
+    if backend == 'cxx':
+        extra_opts = [o for o in extra_opts if o != 'array']
+    lex = rs.to_lex(random.Random(seed), action=lambda i: 'return %d;' % i,
+                    epilogue='#include "fvmulti_cxx.cc"\n' if backend == 'cxx' else '#include "fvmulti.c"\n',
+                    extra_options=be_opts + ['noyywrap'] + list(extra_opts))
     # the default rule's ECHO would write the unmatched bytes to stdout
     if backend == 'r':
         lex = '%top{\n#define yyecho() do {} while (0)\n}\n' + lex
-    else:
+    elif backend == 'c99':
         lex = '%top{\n#define FVM_C99 1\n}\n' + lex
-    lf = os.path.join(work, name + '.l'); cf = os.path.join(work, name + '.c'); exe = os.path.join(work, name + '.exe')
+    lf = os.path.join(work, name + '.l'); cf = os.path.join(work, name + ('.cc' if backend == 'cxx' else '.c')); exe = os.path.join(work, name + '.exe')
     open(lf, 'w', encoding='latin1').write(lex)
     rc, so, se = flexrun.run_flex(flex, lf, cf, list(topt) + ['-8' if rs.csize == 256 else '-7'], timeout=10)
     if rc != 0:
         return None, lex, se
-    cmd = ['gcc', '-w', '-O1', '-g', '-fsanitize=' + sanitize, '-fno-sanitize-recover=all', '-I', HARNESS, '-I', src, cf, '-o', exe, '-lpthread']
+    cmd = ['g++' if backend == 'cxx' else 'gcc', '-w', '-O1', '-g', '-fsanitize=' + sanitize, '-fno-sanitize-recover=all', '-I', HARNESS, '-I', src, cf, '-o', exe, '-lpthread']
     p = subprocess.run(cmd, stdout=subprocess.PIPE, stderr=subprocess.STDOUT, text=True)
     if p.returncode != 0:
         return None, lex, p.stdout
@@ -58,7 +62,7 @@ def _job(job):
     rs = rules.gen_ruleset(rng, p_trail=0.1, p_bol=0.3)
     topt = rng.choice([['-Cem'], ['-Cf'], ['-CF'], ['-C'], ['-Ce']])
     opts = rng.choice([[], ['yylineno'], ['array'], ['stack']])
-    backend = rng.choice(['r', 'r', 'c99'])
+    backend = rng.choice(['r', 'r', 'c99', 'cxx'])
     res = {'idx': idx, 'problems': [], 'runs': 0, 'topt': topt, 'opts': opts, 'backend': backend}
     exe, lex, err = build(flex, src, work, 'c12_%d' % idx, rs, seed, opts, topt=topt, backend=backend)
     res['lex'] = lex
@@ -105,7 +109,7 @@ def _job(job):
                         break
     res['status'] = 'ok'
     for f in ('c12_%d' % idx, 'c12t_%d' % idx):
-        for ext in ('.l', '.c', '.exe'):
+        for ext in ('.l', '.c', '.cc', '.exe'):
             try:
                 os.unlink(os.path.join(work, f + ext))
             except OSError:
@@ -243,11 +247,12 @@ def run(ctx):
     cov = {
         'explanation': 'kernel-checked: any interleaving of steps of machines with disjoint state gives each its solo result '
                        '(interleave_independent); decided on facts regenerated by nm from scanners generated in this run: a '
-                       'reentrant scanner has no writable file-scope object in 5 configurations, two prefixes share no external '
-                       'symbol (and link); correspondence: 2-6 instances of generated reentrant scanners stepped under random '
+                       'reentrant or c99 scanner has no writable file-scope object in 8 configurations, two prefixes share no external '
+                       'symbol (default skeleton: and link; c99: symbol sets); correspondence: 2-6 instances of generated reentrant C '
+                       'scanners, c99 scanners and C++ lexer objects (the back end is drawn per scanner) stepped under random '
                        'schedules on one thread (ASan+UBSan) and run on separate threads under ThreadSanitizer must yield their '
                        'solo token streams. Data races under the C memory model outside the explored executions are not excluded; '
-                       'C++ lexer objects and c99 scanners are not covered yet.',
+                       'a C++ scanner with -CF is refused by flex (status nobuild).',
         'evaluations': runs, 'distinct_nontrivial': st.get('ok', 0) * 5,
         'obligations': len(THEOREMS), 'discharged': discharged, 'status_counts': st,
         'footprint_facts': facts, 'prefix_clashes': clashes, 'samples': samples or [{'note': 'none'}],
